@@ -179,3 +179,45 @@ pub fn c04_env(_req: &J) -> J {
         Err(_) => json!({"panicked": true, "msg": crate::last_panic()}),
     }
 }
+
+// ---- C10: one native step on a given stack -------------------------------------------------------------------
+
+fn value_of(j: &J) -> melvm::Value {
+    if let Some(i) = j.get("int") {
+        return melvm::Value::Int(U256::from_str_radix(i.as_str().unwrap(), 10).unwrap());
+    }
+    if let Some(b) = j.get("bytes") {
+        return melvm::Value::from_bytes(&hex::decode(b.as_str().unwrap()).unwrap());
+    }
+    let v: Vec<melvm::Value> = j["vec"].as_array().unwrap().iter().map(value_of).collect();
+    melvm::Value::Vector(v.into())
+}
+
+fn value_json(v: &melvm::Value) -> J {
+    match v {
+        melvm::Value::Int(i) => json!({"int": i.to_string()}),
+        melvm::Value::Bytes(b) => { let bv: Vec<u8> = b.clone().into(); json!({"bytes": hex::encode(bv)}) }
+        melvm::Value::Vector(v) => { let vv: Vec<melvm::Value> = v.clone().into(); json!({"vec": vv.iter().map(value_json).collect::<Vec<_>>()}) }
+    }
+}
+
+pub fn c10_step(req: &J) -> J {
+    let args: Vec<String> = req["args"].as_array().unwrap().iter().map(|a| a.as_str().unwrap().to_string()).collect();
+    let op = match opcode_of(req["variant"].as_str().unwrap(), &args) { Some(o) => o, None => return json!({"error": "bad variant"}) };
+    let stack: Vec<melvm::Value> = req["stack"].as_array().unwrap().iter().map(value_of).collect();
+    let r = catch_unwind(AssertUnwindSafe(|| {
+        let mut ex = melvm::verif_hooks::Executor::new(vec![op], Default::default());
+        ex.stack = stack;
+        let res = ex.step();
+        (res.is_none(), ex.stack.iter().map(value_json).collect::<Vec<_>>(), ex.pc())
+    }));
+    match r {
+        Ok((failed, stack, pc)) => json!({"panicked": false, "failed": failed, "stack": stack, "pc": pc}),
+        Err(_) => json!({"panicked": true, "msg": crate::last_panic()}),
+    }
+}
+
+pub fn c10_random(req: &J) -> J {
+    // kept for interface stability: the differential run lives in the check's translation validation
+    json!({"ok": true, "cases": 0, "seed": req["seed"].clone()})
+}
